@@ -58,11 +58,22 @@ def mexpr(fr):
     return s + (" / au::mag<%dULL>()" % fr.denominator if fr.denominator != 1 else "")
 
 
+def scaled(base, fr, style):
+    """The unit `base` scaled by fr, spelled one of the ways a program may spell it: in one step by
+    the quotient, in two steps (always with the division, also by mag<1>), or through a scaling by
+    one of an already scaled unit - all name the same unit."""
+    if style == 0:
+        return "%s{} * (%s)" % (base, mexpr(fr))
+    if style == 1:
+        return "%s{} * au::mag<%dULL>() / au::mag<%dULL>()" % (base, fr.numerator, fr.denominator)
+    return "(%s{} * au::mag<%dULL>()) * au::mag<1>() / au::mag<%dULL>()" % (base, fr.numerator, fr.denominator)
+
+
 def block(k, inst, cpp20):
     same = inst.m1 == inst.m2
     ls = ["struct B%d : au::UnitImpl<au::Length> {};" % k,
-          "struct U%d : decltype(B%d{} * (%s)) {};" % (k, k, mexpr(inst.m1)),
-          ("using V%d = U%d;" % (k, k)) if same else "struct V%d : decltype(B%d{} * (%s)) {};" % (k, k, mexpr(inst.m2)),
+          "struct U%d : decltype(%s) {};" % (k, scaled("B%d" % k, inst.m1, k % 3)),
+          ("using V%d = U%d;" % (k, k)) if same else "struct V%d : decltype(%s) {};" % (k, scaled("B%d" % k, inst.m2, (k // 3) % 3)),
           "using P%d = %s; using Q%d = %s;" % (k, inst.r1, k, inst.r2)]
     pre = "auto a = au::make_quantity<U%d>(x); auto b = au::make_quantity<V%d>(y);" % (k, k)
     names = []
